@@ -4,7 +4,7 @@ import z3
 from vf.pyvc.lib import REG
 from vf.pyvc import timelib  # noqa
 from vf import tables as T
-from contracts import cleaners as K, lexical as KL, coconstraints as KC, parsing as KPI
+from contracts import cleaners as K, lexical as KL, coconstraints as KC, parsing as KPI, timefmt as KT
 from props import _objects as O
 
 LEVEL = 'other'
@@ -60,8 +60,9 @@ def run(chk):
     chk.trust('spec/tables_v20.json, spec/tables_v21.json, spec/lexical.py and vf/tables.py COCONSTRAINTS as the specification model (bootstrapped from the tree after the fix commits, deviations known at build time kept as findings)')
     chk.assume('pattern validity is delegated to stix2patterns (assumed)', 'custom property names are checked for their first character only: known finding (reachable only with customisation allowed)')
     lexical_part(chk, 'C02')
-    cs = [K.validate_type_contract(), K.integer_clean_contract(), K.hashes_clean_contract(), K.list_clean_contract(), K.reference_clean_contract()] + [K.order_contract(*row) for row in K.ORDER_TABLE] + KC.all_contracts() + \
-         [K.enum_clean_contract(), K.hex_clean_contract(), K.dictionary_clean_contract(), K.float_clean_contract(), K.observable_clean_contract(), K.extensions_clean_contract(), KPI.init_prefix_contract()]
+    cs = [K.validate_type_contract(), K.integer_clean_contract(), K.integer_clean_contract('bool'), K.hashes_clean_contract(), K.list_clean_contract(), K.reference_clean_contract()] + [K.order_contract(*row) for row in K.ORDER_TABLE] + KC.all_contracts() + \
+         [K.enum_clean_contract(), K.hex_clean_contract(), K.dictionary_clean_contract(), K.float_clean_contract(), K.observable_clean_contract(), K.extensions_clean_contract(), KPI.init_prefix_contract()] + \
+         [KT.parse_contract(k) for k in ('str', 'datetime', 'stixdatetime')] + [KT.format_datetime_contract(True)]        # every timestamp emitted goes through these two
     for c in cs:
         chk.prove(c); chk.canary(c)
     from vf.callsites import purity_obligations
